@@ -21,6 +21,7 @@ type gosymUp struct {
 }
 
 var gosymUps []*gosymUp
+var gosymForcedOutcome = -1 // index into gosymCodes, or -1: solver-chosen per upload
 var gosymAttempts map[string]int
 
 var gosymCodes = []int{200, 200, 403, 408, 500, 503, 0}
@@ -30,7 +31,10 @@ var gosymReps = []int{1, 2, 0, 0, 0, 0, 0}
 func gosymUpload(kc *KeepClient, host string, hash string, body io.Reader, ch chan<- uploadStatus, expectedLength int64, reqid string) {
 	gosymAttempts[host]++
 	id := host[len(host)-1:] + "." + string(rune('0'+gosymAttempts[host]))
-	k := gosym_Choice("outcome."+id, len(gosymCodes))
+	k := gosymForcedOutcome
+	if k < 0 {
+		k = gosym_Choice("outcome."+id, len(gosymCodes))
+	}
 	u := &gosymUp{host: host, code: gosymCodes[k], replicas: gosymReps[k]}
 	gosymUps = append(gosymUps, u)
 	var err error
